@@ -369,12 +369,22 @@ def _q3_q6(ctx, R):
         name, pub, mid, raw = _triple(mod)
         n += 1
         # Q3
-        filt = [c for c in walk_local(mid.node) if isinstance(c, ast.Call) and norm(c.func) == "filter" and len(c.args) == 2]
+        # filter(f, raw(...)) — which the loader reads as (x for x in raw(...) if f(x)) — or the same thing spelled as a loop
+        filt = [(c.args[0], c.args[1]) for c in walk_local(mid.node) if isinstance(c, ast.Call) and norm(c.func) == "filter" and len(c.args) == 2]
+        for g in walk_local(mid.node):
+            if isinstance(g, (ast.GeneratorExp, ast.ListComp)) and len(g.generators) == 1 and len(g.generators[0].ifs) == 1 and norm(g.elt) == norm(g.generators[0].target):
+                t_ = g.generators[0].ifs[0]
+                if isinstance(t_, ast.Call) and len(t_.args) == 1 and norm(t_.args[0]) == norm(g.elt) and not t_.keywords:
+                    filt.append((t_.func, g.generators[0].iter))
+            if isinstance(g, ast.For) and isinstance(g.iter, ast.Call) and len(g.body) == 1 and isinstance(g.body[0], ast.If) and not g.body[0].orelse:
+                t_ = g.body[0].test
+                ys = [y for y in ast.walk(g.body[0]) if isinstance(y, ast.Yield)]
+                if isinstance(t_, ast.Call) and len(t_.args) == 1 and norm(t_.args[0]) == norm(g.target) and ys and norm(ys[0].value) == norm(g.target):
+                    filt.append((t_.func, g.iter))
         ok = False
-        for c in filt:
-            inner = c.args[1]
-            if isinstance(inner, ast.Call) and norm(inner.func) == raw.name and isinstance(c.args[0], ast.Name) and c.args[0].id in mid.params:
-                fparam = c.args[0].id
+        for pred_, inner in filt:
+            if isinstance(inner, ast.Call) and norm(inner.func) == raw.name and isinstance(pred_, ast.Name) and pred_.id in mid.params:
+                fparam = pred_.id
                 # the public function passes kwargs.get("filter", ...) in that position
                 for call in walk_local(pub.node):
                     if isinstance(call, ast.Call) and norm(call.func) == mid.name:
